@@ -424,11 +424,8 @@ func (g *DependencyGraph) DetectCycles() error {
 	if !g.cycleCacheDirty {
 		for key, hasCycle := range g.cycleCache {
 			if hasCycle {
-				path := g.findCyclePath(key)
-				return &CircularDependencyError{
-					Node: key,
-					Path: path,
-				}
+				// Walk again from the node known to reach a cycle, to report an actual cycle path
+				return g.detectCyclesFrom(key)
 			}
 		}
 		return nil
@@ -488,8 +485,22 @@ func (g *DependencyGraph) detectCyclesFrom(start NodeKey) error {
 
 		// Mark as visiting
 		if visiting[item.key] {
-			// Found a cycle
-			path := g.findCyclePath(item.key)
+			// Found a cycle: the stack entries already marked for backtracking are the current DFS path;
+			// the cycle is the part of that path from the first occurrence of this node, closed by this node
+			path := make([]NodeKey, 0, len(stack))
+			onCycle := false
+			for _, entry := range stack[:len(stack)-1] {
+				if entry.visiting {
+					continue // pending sibling, not on the path
+				}
+				if entry.key == item.key {
+					onCycle = true
+				}
+				if onCycle {
+					path = append(path, entry.key)
+				}
+			}
+			path = append(path, item.key)
 			g.cycleCache[item.key] = true
 			return &CircularDependencyError{
 				Node: item.key,
@@ -516,63 +527,6 @@ func (g *DependencyGraph) detectCyclesFrom(start NodeKey) error {
 	}
 
 	return nil
-}
-
-// findCyclePath reconstructs the cycle path for error reporting
-func (g *DependencyGraph) findCyclePath(start NodeKey) []NodeKey {
-	path := []NodeKey{}
-	visited := make(map[NodeKey]bool)
-	parent := make(map[NodeKey]NodeKey)
-
-	// Use BFS to find the cycle more efficiently
-	var findPath func(current NodeKey) bool
-	findPath = func(current NodeKey) bool {
-		if visited[current] {
-			// Found a node we've seen before - reconstruct cycle
-			cycle := []NodeKey{current}
-			for p := parent[current]; p != current && !visited[p]; p = parent[p] {
-				cycle = append([]NodeKey{p}, cycle...)
-				visited[p] = true
-
-				// Safety check to prevent infinite loop
-				if len(cycle) > len(g.nodes) {
-					break
-				}
-			}
-			path = cycle
-			return true
-		}
-
-		visited[current] = true
-
-		if edges, exists := g.edges[current]; exists {
-			for _, next := range edges {
-				if _, hasParent := parent[next]; !hasParent {
-					parent[next] = current
-				}
-
-				if next == start || findPath(next) {
-					if len(path) == 0 {
-						path = []NodeKey{current}
-					} else if path[0] != current {
-						path = append([]NodeKey{current}, path...)
-					}
-					return true
-				}
-			}
-		}
-
-		return false
-	}
-
-	findPath(start)
-
-	// Ensure the path shows the complete cycle
-	if len(path) > 0 && path[len(path)-1] != start {
-		path = append(path, start)
-	}
-
-	return path
 }
 
 // GetDependencies returns the direct dependencies of a service
